@@ -36,6 +36,26 @@ def algo_calls(node, stage_var=None):
     return out
 
 
+def make_inliner(body):
+    """single-assignment locals are inlined into expressions (`let stored_len = 1 + compressed.len();`)"""
+    let_init = {l["pat"]["name"]: l["init"] for l in hirq.find(body, "let") if l["pat"].get("k") == "bind" and l.get("init") is not None}
+
+    def inline(n, depth=0):
+        n2 = hirq.strip(n)
+        if depth < 4 and n2.get("k") == "path" and n2["res"].get("local") in let_init and hirq.strip(let_init[n2["res"]["local"]]).get("k") in ("bin", "mcall", "cast"):
+            return inline(let_init[n2["res"]["local"]], depth + 1)
+        if isinstance(n2, dict):
+            out = dict(n2)
+            for k_ in ("l", "r", "e", "recv"):
+                if isinstance(out.get(k_), dict):
+                    out[k_] = inline(out[k_], depth)
+            if isinstance(out.get("args"), list):
+                out["args"] = [inline(a, depth) for a in out["args"]]
+            return out
+        return n2
+    return inline
+
+
 def variant_table(fn):
     tab = {}
     for m in hirq.find(fn.hir["body"], "match"):
@@ -65,7 +85,14 @@ def run(ctx):
     else:
         ctx.saw_fn(comp)
         body = comp.hir["body"]
-        ifs = [n for n in hirq.find(body, "if") if "len()" in hirq.render(n["c"]) and "compress" in hirq.render(n["c"])]
+        inline = make_inliner(body)
+        ifs = []
+        for n in hirq.find(body, "if"):
+            c_in = inline(n["c"])
+            if "len()" in hirq.render(c_in) and "compress" in hirq.render(c_in):
+                m_ = dict(n)
+                m_["c"] = c_in
+                ifs.append(m_)
         if not ifs:
             ctx.bad(R_exp, "compress|no-guard", comp.where, "no size comparison guards the choice between raw and compressed", "the stored form can be longer than the input")
         for n in ifs:
@@ -192,12 +219,21 @@ def run(ctx):
             continue
         if who == "compress":
             body = f.hir["body"]
+            inline = make_inliner(body)
             lets = {l["pat"]["name"]: hirq.render(l.get("init")) for l in hirq.find(body, "let") if l["pat"].get("k") == "bind" and l.get("init") is not None}
             carrier = [k for k, v in lets.items() if "validate_decompression_operation" in v]
             in_guard = any(any(re.search(r"\b%s\b" % re.escape(c), hirq.render(n["c"])) for c in carrier) and "to_vec" in hirq.render(n) for n in hirq.find(body, "if"))
             default_limits = any((c.get("fn") or "").endswith("SecurityLimits as core::default::Default>::default") or "default" in (c.get("fn") or "") and "SecurityLimits" in (c.get("fn") or "") for c in hirq.calls(body))
-            if in_guard and default_limits:
-                ctx.ok(R_lim, {"fn": who, "verdict_local": carrier, "feeds_raw_fallback": True})
+            # sibling agreement on what is measured: the reader validates the payload *without* the method byte
+            vcall = next((c for c in hirq.calls(body) if (c.get("fn") or "").endswith("security::validate_decompression_operation")), None)
+            a0 = hirq.render(inline(vcall["args"][0])) if vcall is not None else ""
+            a1 = hirq.render(inline(vcall["args"][1])) if vcall is not None else ""
+            args_ok = re.fullmatch(r"\(?compressed\.len\(\)( as _)?\)?", a0) is not None and re.fullmatch(r"\(?data\.len\(\)( as _)?\)?", a1) is not None
+            if in_guard and default_limits and args_ok:
+                ctx.ok(R_lim, {"fn": who, "verdict_local": carrier, "feeds_raw_fallback": True, "validator_args": [a0, a1]})
+            elif in_guard and default_limits:
+                ctx.bad(R_lim, "compress|validator-args", f.where, "pre-check validates (%s, %s); the reader validates (payload length without method byte, original length)" % (a0, a1),
+                        "compressor and decompressor measure the ratio on different byte counts: blocks sitting on the ratio limit are emitted and then rejected")
             else:
                 ctx.bad(R_lim, "compress|limit-result-unused", f.where, "validator verdict %s does not feed the raw-fallback guard (default limits: %s)" % (carrier, default_limits),
                         "highly compressible input is emitted compressed and then rejected by the reader")
